@@ -25,7 +25,7 @@ type Config struct {
 	Hole        int     `json:"hole"`
 	Required    int     `json:"required"`
 	Table       string  `json:"table"`                     // "standard" | "short"
-	Amounts     string  `json:"amounts"`                   // "all" (every integer in range) | "classes" (threshold representatives)
+	Amounts     string  `json:"amounts"`                   // "all" (every integer in range) | "classes" (threshold representatives) | "edges" (edges of the legal range only)
 	BurnZero    bool    `json:"burn_count_zero,omitempty"` // options carry BurnCount 0 (e.g. built from a bare literal / JSON without the field)
 	Scene       *Scene  `json:"scene,omitempty"`           // what else happens in the process / happened to the game object (see scene.go)
 }
